@@ -1,2 +1,7 @@
 import SeliumModel.Backoff
 import SeliumModel.Lemmas.Backoff
+import SeliumModel.Wire.Bincode
+import SeliumModel.Lemmas.Bincode
+import SeliumModel.Wire.Framed
+import SeliumModel.Wire.Batch
+import SeliumModel.Lemmas.Frame
